@@ -25,9 +25,8 @@ def parse(text):
                 i += 1
                 logical = logical[:-1] + lines[i].lstrip()
             i += 1
-            head, _, rest = logical[5:].partition(":")
-            outs = head.split()
-            toks = rest.split()
+            outs, rest = lex_paths(logical[5:], stop_at_colon=True)
+            toks, _ = lex_paths(rest, stop_at_colon=False)
             rule = toks[0] if toks else ""
             inputs, deps, always = [], [], False
             cur = inputs
@@ -48,6 +47,24 @@ def parse(text):
                 res["header"].append(ln)
             i += 1
     return res
+
+def lex_paths(s, stop_at_colon):
+    """ninja's path lexing: tokens end at blanks (and at the first unescaped colon when reading outputs);
+    `$ ` is a blank, `$:` a colon, `$$` a dollar inside a token. -> (tokens, rest after the colon)"""
+    toks, cur, i, n = [], None, 0, len(s)
+    while i < n:
+        c = s[i]
+        if c == "$" and i + 1 < n and s[i + 1] in " :$":
+            cur = (cur or "") + s[i + 1]; i += 2; continue
+        if c in " \t":
+            if cur is not None: toks.append(cur); cur = None
+            i += 1; continue
+        if c == ":" and stop_at_colon:
+            if cur is not None: toks.append(cur)
+            return toks, s[i + 1:]
+        cur = (cur or "") + c; i += 1
+    if cur is not None: toks.append(cur)
+    return toks, ""
 
 def base_name(rule_name):
     m = re.match(r"^(.*)_(\d+)$", rule_name)
